@@ -12,7 +12,7 @@ import (
 func init() {
 	Registry["C08"] = RuleDef{Module: ".", Run: runC08,
 		Technique:   "framing rule on string concatenations that derive a cache identity (operands resolved in SSA; a concatenation of two or more caller-controlled strings needs a length-dependent operand for all but one of them), addressing rule for the two-level maps of the stores, argument-pair rule at the call sites of the CacheStore interface",
-		Explanation: "Decides structural necessary conditions of 'different commands, different entries': (R08a) wherever a cache identity is assembled from caller-controlled strings (cmds.CacheKey, cmds.MGetCacheCmd, the SimpleCache adapter's store key), at most one operand of the concatenation is unframed - every other one is accompanied by an operand computed from its length; an unframed concatenation of two arbitrary strings cannot be injective; (R08b) the built-in store and the adapter address entries by store[key] then cache[cmd] with exactly the (key, cmd) pair they were given (Flights: the pair returned by CacheKey for that element); (R08c) every caller of CacheStore.Flight/Update/Cancel passes the key and the command identity of the same command in that order (both components of one CacheKey call, or MGetCacheKey/MGetCacheCmd of the same MGET).",
+		Explanation: "Decides structural necessary conditions of 'different commands, different entries': (R08a) wherever a cache identity is assembled from caller-controlled strings (cmds.CacheKey, cmds.MGetCacheCmd, the SimpleCache adapter's store key), at most one operand of the concatenation is unframed - every other one is accompanied by an operand computed from its length; an unframed concatenation of two arbitrary strings cannot be injective; (R08b) the built-in store and the adapter address entries by store[key] then cache[cmd] with exactly the (key, cmd) pair they were given (Flights: the pair returned by CacheKey for that element); (R08f) a cache entry's identity fields (cmd, kc, ch) are written only while the entry is constructed - entries are never recycled for another command while a waiter may still hold them; (R08c) every caller of CacheStore.Flight/Update/Cancel passes the key and the command identity of the same command in that order (both components of one CacheKey call, or MGetCacheKey/MGetCacheCmd of the same MGET).",
 		NotDecided:  "collisions between a read-only script identity and a plain command with the same token text (requires reasoning about the token alphabet); server-side aliasing."}
 }
 
@@ -345,6 +345,41 @@ func runC08(r *Report) {
 		}
 		r.Anchor("R08e", "Flights: slots filled under an identity (>= 4)", n >= 4)
 	}
+
+	// R08f: the identity of a cache entry is fixed at construction. A *cacheEntry is handed to
+	// callers as their flight (they may wait on it much later); its cmd, kc and ch fields are written
+	// only while it is being built, never on an entry that already exists (no recycling of entries:
+	// a late waiter would receive the reply of whatever command the object was given next).
+	nId := 0
+	for _, f := range []string{"cmd", "kc", "ch"} {
+		for _, a := range p.FieldAccesses("rueidis.cacheEntry", f) {
+			if !a.Write {
+				continue
+			}
+			nId++
+			fresh := false
+			if st, ok := a.Instr.(*ssa.Store); ok {
+				_, _, base, _ := FieldRef(st.Addr)
+				_, fresh = Strip(base).(*ssa.Alloc)
+			}
+			r.ObSite("R08f", a.Site, "entry-identity-set-only-at-construction:"+f, fresh, "cacheEntry."+f+" is assigned only in the composite literal that creates the entry")
+		}
+	}
+	// ... and no whole-struct overwrite of an existing entry
+	for _, fn := range p.Funcs("rueidis.") {
+		for _, s := range Sites(fn, func(in ssa.Instruction) bool {
+			st, ok := in.(*ssa.Store)
+			return ok && shortType(st.Val.Type()) == "rueidis.cacheEntry"
+		}) {
+			st := s.Instr.(*ssa.Store)
+			_, fresh := Strip(st.Addr).(*ssa.Alloc)
+			if !fresh {
+				nId++
+				r.ObSite("R08f", s, "existing-entry-overwritten", false, "an existing cacheEntry is overwritten as a whole (recycled for another command) although callers may still hold it as their flight")
+			}
+		}
+	}
+	r.Anchor("R08f", "cacheEntry identity field initialisations (>= 6)", nId >= 6)
 
 	// R08c callers
 	nCall := 0
